@@ -140,6 +140,17 @@ def cascade(ctx, R):
                     if pl and any(isinstance(p, dict) and p.get('n') == 'winner_track' for p in pl['p']):
                         from_best = True
         if labels:
+            # which stage the labelled winners come from: the adaptor chain the closure runs in starts at the result
+            # of the appearance engine (BestFitVoting) or of the positional engine (SortVoting)
+            from lib import adaptor_of_closure, subst_upvars
+            pb_, ac_ = adaptor_of_closure(F, b, cb) if cb.kind == 'Closure' else (None, None)
+            if ac_ is not None:
+                chain_ = subst_upvars(F, pb_, ExprBuilder(pb_).arg(ac_, 0))
+                engines = {('feature' if 'BestFitVoting' in (getattr(y.extra, 'res', '') or '') else 'positional')
+                           for y in chain_.walk() if y.kind == 'call' and y.name.endswith('Voting::winners') and
+                           any(k_ in (getattr(y.extra, 'res', '') or '') for k_ in ('BestFitVoting', 'SortVoting'))}
+                if len(engines) == 1:
+                    from_best = engines == {'feature'}
             if from_best:
                 n += 1
                 visual_label = labels == {'Visual'}
@@ -153,6 +164,26 @@ def cascade(ctx, R):
                 positional_label = labels == {'Positional'}
                 ctx.check(positional_label, R, cb, 'positional-winners-labelled-Positional', str(labels),
                           'winners of the positional stage are labelled %s' % labels)
+    if visual_label and not excl_insert:
+        # split form: the taken set is filled by another closure of the same appearance chain
+        # (`.map(|(from, w)| (from, w[0].winner_track)).inspect(|(_, t)| { taken.insert(*t); }).map(label)`)
+        from lib import adaptor_of_closure as _aoc, subst_upvars as _su
+        for cb2 in all_callables(F, b):
+            if cb2.kind != 'Closure':
+                continue
+            pb2, ac2 = _aoc(F, b, cb2)
+            if ac2 is None:
+                continue
+            ch2 = _su(F, pb2, ExprBuilder(pb2).arg(ac2, 0))
+            feat = any(y.kind == 'call' and y.name.endswith('Voting::winners') and 'BestFitVoting' in (
+                getattr(y.extra, 'res', '') or '') for y in ch2.walk())
+            if not feat:
+                continue
+            e2 = ExprBuilder(cb2)
+            for ic in cb2.find_calls('std::collections::HashSet::insert'):
+                v2 = e2.arg(ic, 1).strip()
+                if any(p_.root == ('param', 2) for p_ in v2.places()) or v2.has_field('winner_track'):
+                    excl_insert = True
     if visual_label and not excl_insert:
         # collected form: the taken set is built by its own pass over the appearance winners
         # (`winners.values().map(|w| w[0].winner_track).collect::<HashSet<_>>()`)
